@@ -132,6 +132,7 @@ class Peer:
         self.violations = []      # invariant violations found at hit time (rule, detail)
         self.doc_owner = lambda pid: None   # pid -> dtid owning that point (set by harness)
         self.import_log = []      # (modname, action, value)
+        self.kept_streams = []    # streams the code under test keeps across doctests
 
     # -- context ---------------------------------------------------------
     def cur(self):
@@ -302,6 +303,37 @@ class Peer:
         if text:
             self._write(dtid, k, pid, text)
         return val
+
+    def emitcr(self, pid):
+        """writes its token followed by carriage return + line feed"""
+        dtid, k, n = self._hit(pid)
+        f = self._fault(dtid, k, pid, n)
+        text = tok(pid, n) + '\r\n'
+        if f is not None:
+            self._misbehave_pre(f, pid, n, sys._getframe(1).f_globals)
+            if f['kind'] == 'wrong':
+                text = tok(pid, n, wrong=True) + '\r\n'
+            elif f['kind'] in ('mute', 'drop_line'):
+                text = ''
+        if text:
+            self._write(dtid, k, pid, text)
+
+    def keepstream(self, stream, pid):
+        self._hit(pid)
+        if self.mode == 'real':
+            self.kept_streams.append(stream)
+
+    def writekept(self, pid):
+        """writes to every stream kept so far; like logging, it swallows the error of a stream
+        that has been closed meanwhile"""
+        dtid, k, n = self._hit(pid)
+        if self.mode != 'real':
+            return
+        for stream in list(self.kept_streams):
+            try:
+                stream.write(tok(pid, n) + '\n')
+            except ValueError:
+                pass
 
     def emitnoeol(self, pid):
         """writes its token without finishing the line"""
@@ -523,6 +555,12 @@ class Peer:
             raise exc
         if kind == 'print':
             sys.stdout.write('importing ' + modname + '\n')
+        if kind == 'swap_stdout':
+            # a module that wraps sys.stdout while it is being imported
+            if self.mode == 'real':
+                self.fired.append(('import_swap_stdout', None, None, modname))
+                self.import_log.append((modname, 'swapstdout', None))
+                sys.stdout = WriteOnly()
         if kind == 'warn_filters':
             # a module that installs a warning filter while it is being imported
             if self.mode == 'real':
@@ -550,7 +588,7 @@ PEER = Peer()
 def install():
     """Create the module object `_xdsim` whose attributes forward to PEER."""
     mod = types.ModuleType(MODNAME)
-    for name in ('op', 'emit', 'emitop', 'emitnoeol', 'abg', 'deco', 'sayval', 'writeto', 'say', 'aop', 'actx', 'point', 'names', 'modglobal', 'importing'):
+    for name in ('op', 'emit', 'emitop', 'emitnoeol', 'emitcr', 'keepstream', 'writekept', 'abg', 'deco', 'sayval', 'writeto', 'say', 'aop', 'actx', 'point', 'names', 'modglobal', 'importing'):
         setattr(mod, name, getattr(PEER, name))
     mod.Val = Val
     mod.SimError = SimError
